@@ -10,19 +10,19 @@ CONDS = [
          timeout={'quick': 60, 'thorough': 600}, expect_exhaustive=True),
     Cond('id_roundtrip_ok', "'#' + escape(s) compiles to exactly one compound with ids == (s with NUL -> U+FFFD,)",
          'len(s) = 1 quick / <= 2 thorough, every code point incl. controls, C1, surrogates, astral',
-         timeout={'quick': 100, 'thorough': 900}, parts={'quick': 3, 'thorough': 14}),
+         timeout={'quick': 100, 'thorough': 900}, parts={'quick': 3, 'thorough': 7}),
     Cond('class_roundtrip_ok', "'.' + escape(s): exactly one compound with that class", 'same',
-         timeout={'quick': 100, 'thorough': 900}, parts={'quick': 2, 'thorough': 14}),
+         timeout={'quick': 100, 'thorough': 900}, parts={'quick': 2, 'thorough': 7}),
     Cond('attr_roundtrip_ok', "'[a=' + escape(s) + ']': one attribute selector whose pattern accepts exactly the value",
-         'same', timeout={'quick': 100, 'thorough': 900}, parts={'quick': 2, 'thorough': 14}),
+         'same', timeout={'quick': 100, 'thorough': 900}, parts={'quick': 2, 'thorough': 7}),
     Cond('select_roundtrip_ok', 'on a 3-element tree the escaped selector selects exactly the element carrying the value '
-         '(id / class / attribute)', 'len(s) = 1', timeout={'quick': 100, 'thorough': 600}, parts={'quick': 2, 'thorough': 14}),
+         '(id / class / attribute)', 'len(s) = 1', timeout={'quick': 100, 'thorough': 600}, parts={'quick': 2, 'thorough': 7}),
     Cond('position_roundtrip_ok', 'one symbolic character in each position class (first with follower, interior, last, after a '
          'leading dash alone / followed, after "--", after "a-", ...) of an otherwise concrete identifier: id / class / '
          'embedded round trip', '9 shapes x every code point', timeout={'quick': 100, 'thorough': 900},
          parts={'quick': 3, 'thorough': 9}),
     Cond('embedded_ok', "'div#' + escape(s) + '.k > p' keeps the surrounding structure", 'len(s) = 1',
-         timeout={'quick': 100, 'thorough': 600}, parts={'quick': 2, 'thorough': 14}),
+         timeout={'quick': 100, 'thorough': 600}, parts={'quick': 2, 'thorough': 7}),
 ]
 
 
